@@ -4,7 +4,7 @@ from datetime import timedelta
 
 RULE = ('exhaustive: attempts in -1..6 x every outcome sequence up to the tier length over {return, listed, subclass of listed, '
         'foreign Exception, BaseException; less common: returned exception instances, TypeError, None, ExceptionGroups of listed / mixed leaves} x exceptions spec {class, tuple, tuple(base, sub)} x {retry_func, @retry}; plus seeded long '
-        'scripts (length <= 40, attempts <= 45); kinds of callable (function, lambda, bound method, functools.partial, instance with __call__), logger configurations (none + logging disabled, own logger at WARNING / ERROR level), sleep_time 0 / 1.5 s (durations recorded).  non-trivial = at least one invocation raised')
+        'scripts (length <= 40, attempts <= 45); listed / foreign exceptions that cannot be formatted (__str__ returns None, __repr__ raises); overlapping calls (invocation i of a call makes another call of the same decorated function - same wrapper object - with its own script: both are judged against the contract; exhaustive for short scripts); kinds of callable (function, lambda, bound method, functools.partial, instance with __call__), logger configurations (none + logging disabled, own logger at WARNING / ERROR level), sleep_time 0 / 1.5 s (durations recorded).  non-trivial = at least one invocation raised')
 EXHAUSTIVE = {'quick': True, 'thorough': True}
 ASSUMPTIONS = ['time.sleep and the logger are patched in the harness process', 'outcomes of the retried function are scripted; the function is deterministic per invocation index']
 TRUSTED = ['Python `except <classes>` semantics (isinstance against a class or tuple) is taken from the interpreter: the harness classifies each raised object as listed/foreign with the same isinstance test']
@@ -13,7 +13,10 @@ KINDS = ['ret', 'listed', 'listedsub', 'foreign', 'base']
 # less common outcomes (seeded part + a reduced exhaustive block): the function RETURNS an exception instance (a return is a return,
 # whatever is returned), raises TypeError (foreign unless the spec lists it - the error class a wrong call of the machinery itself
 # would raise), returns None
-KINDS_X = KINDS + ['retexc', 'retforeignexc', 'typeerr', 'retnone', 'group_listed', 'group_mixed', 'basegroup']
+KINDS_X = KINDS + ['retexc', 'retforeignexc', 'typeerr', 'retnone', 'group_listed', 'group_mixed', 'basegroup',
+                   # listed exceptions that cannot be formatted: __str__ returns None (TypeError in str() / f-strings), __repr__ raises
+                   'listed_nostr', 'listedsub_norepr', 'foreign_nostr']
+UNPRINTABLE = ('listed_nostr', 'listedsub_norepr', 'foreign_nostr')
 FKINDS = ['function', 'lambda', 'method', 'partial', 'instance', 'injecting']
 NAMED = {'function': True, 'lambda': True, 'method': True, 'partial': False, 'instance': False, 'injecting': True}
 LOGS = ['disabled', 'warn_level', 'error_level']
@@ -22,7 +25,8 @@ SPECS_X = SPECS + ['tuple_with_typeerror', 'empty_tuple', 'exception_itself']
 ABS = {'ret': 'ret', 'listed': 'listed', 'listedsub': 'listed', 'foreign': 'foreign', 'base': 'foreign',
        'retexc': 'ret', 'retforeignexc': 'ret', 'retnone': 'ret',
        # an ExceptionGroup is not an instance of the listed classes, whatever its leaves are: foreign
-       'group_listed': 'foreign', 'group_mixed': 'foreign', 'basegroup': 'foreign'}
+       'group_listed': 'foreign', 'group_mixed': 'foreign', 'basegroup': 'foreign',
+       'listed_nostr': 'listed', 'listedsub_norepr': 'listed', 'foreign_nostr': 'foreign'}
 
 
 def abs_kind(k, spec):
@@ -36,9 +40,20 @@ def abs_kind(k, spec):
     return ABS[k]
 
 
-def mk(attempts, seq, form, spec, fkind='function', log='disabled', st=0):
-    return {'m': 'retry', 'c': {'attempts': attempts, 'script': [[abs_kind(k, spec), i] for i, k in enumerate(seq)], 'named': NAMED[fkind]},
-            'x': {'kinds': list(seq), 'form': form, 'spec': spec, 'fkind': fkind, 'log': log, 'st': st}}
+def mk(attempts, seq, form, spec, fkind='function', log='disabled', st=0, nest_at=None, inner=False):
+    """nest_at = i: while invocation i of this call is in progress the retried function makes the call described by the NEXT case of
+    the list (same configuration, hence - for the decorator form - the same wrapper object): overlapping / re-entrant use"""
+    return {'m': 'retry', 'c': {'attempts': attempts, 'script': [[abs_kind(k, spec), i] for i, k in enumerate(seq)], 'named': NAMED[fkind],
+                                'unprintable': [i for i, k in enumerate(seq) if k in UNPRINTABLE]},
+            'x': {'kinds': list(seq), 'form': form, 'spec': spec, 'fkind': fkind, 'log': log, 'st': st, 'nest_at': nest_at, 'inner': inner}}
+
+
+def mk_nested(attempts, seq, inner_seq, at, form, spec, fkind='function', log='disabled', st=0):
+    o, n = mk(attempts, seq, form, spec, fkind, log, st, nest_at=at), mk(attempts, inner_seq, form, spec, fkind, log, st, inner=True)
+    # each half carries the other one, so that a replay of one of them alone still executes the overlapping pair
+    o['x']['partner'] = {'m': n['m'], 'c': n['c'], 'x': dict(n['x'])}
+    n['x']['partner'] = {'m': o['m'], 'c': o['c'], 'x': {k: v for k, v in o['x'].items() if k != 'partner'}}
+    return [o, n]
 
 
 def cases(rng, tier):
@@ -64,6 +79,25 @@ def cases(rng, tier):
             for k, seq in enumerate(itertools.product(KINDS, repeat=n)):
                 for j, fkind in enumerate(FKINDS):
                     out.append(mk(attempts, seq, ('func', 'deco')[(k + j) % 2], SPECS[k % 3], fkind, LOGS[(k + j) % 3], (0, 1.5)[(k // 2 + j) % 2]))
+    # overlapping calls of one decorated function (re-entrancy): invocation `at` of the outer call makes an inner call, exhaustively
+    # for short scripts; state shared between the calls in progress (a counter kept per decorated function) shows here
+    INNER = [()] + [(a,) for a in ('ret', 'listed', 'foreign')] + list(itertools.product(('ret', 'listed', 'foreign'), repeat=2)) \
+        + [('listed', 'listed', 'listed'), ('listed', 'listed', 'ret')]
+    k = 0
+    for attempts in range(0, 5):
+        for n in range(1, 4 if tier == 'quick' else 5):
+            for seq in itertools.product(KINDS if n <= 2 else ('ret', 'listed', 'foreign'), repeat=n):
+                for at in range(n):
+                    for inner_seq in INNER:
+                        k += 1
+                        if n == 3 and tier == 'quick' and k % 3:
+                            continue
+                        out += mk_nested(attempts, seq, inner_seq, at, ('deco', 'func')[k % 4 == 0], SPECS[k % 3], FKINDS[k % len(FKINDS)] if k % 5 == 0 else 'function')
+    for _ in range(300 if tier == 'quick' else 3000):
+        n = rng.randint(2, 12); m = rng.randint(0, 8)
+        seq = [rng.choice(['listed', 'listedsub'] * 4 + KINDS) for _ in range(n)]
+        out += mk_nested(rng.randint(0, 14), seq, [rng.choice(['listed'] * 3 + KINDS) for _ in range(m)], rng.randrange(n),
+                         rng.choice(['deco', 'deco', 'func']), rng.choice(SPECS_X), rng.choice(FKINDS), rng.choice(LOGS), rng.choice([0, 1.5]))
     for _ in range(300 if tier == 'quick' else 5000):
         n = rng.randint(5, 40)
         seq = [rng.choice(['listed', 'listedsub'] * 6 + KINDS_X) for _ in range(n)]
@@ -74,6 +108,10 @@ def cases(rng, tier):
 
 def search(rng, tier, near):
     out = []
+    for _ in range(3000):
+        n = rng.randint(1, 8); m = rng.randint(0, 6)
+        out += mk_nested(rng.randint(0, 10), [rng.choice(KINDS_X) for _ in range(n)], [rng.choice(KINDS_X) for _ in range(m)], rng.randrange(n),
+                         rng.choice(['deco', 'func']), rng.choice(SPECS_X), rng.choice(FKINDS), rng.choice(LOGS), rng.choice([0, 1.5]))
     for _ in range(4000):
         n = rng.randint(0, 12)
         out.append(mk(rng.randint(-2, 14), [rng.choice(KINDS_X) for _ in range(n)], rng.choice(['func', 'deco']), rng.choice(SPECS_X),
@@ -90,27 +128,38 @@ def run_impl(cases):
     class Base2(Exception): pass
     class Other(Exception): pass
     class BE(BaseException): pass
+    class NoStr(Base1):                       # cannot be formatted: str(e), f'{e}', '%s' % e raise TypeError
+        def __str__(self): return None
+    class NoRepr(Sub1):
+        def __str__(self): return None
+        def __repr__(self): raise TypeError('no repr')
+    class OtherNoStr(Other):
+        def __str__(self): return None
     specs = {'class': Base1, 'tuple': (Base1, Base2), 'tuple_base_sub': (Base1, Sub1), 'tuple_with_typeerror': (Base1, TypeError),
              'empty_tuple': (), 'exception_itself': Exception}
-    events = []
-    durations = []
+    stack = []                                # one context per call in progress (innermost last)
     orig_sleep = R.time.sleep
-    R.time.sleep = lambda s: (events.append(['sleep']), durations.append(s))[0]
+
+    def fake_sleep(sec):
+        stack[-1]['events'].append(['sleep']); stack[-1]['durations'].append(sec)
+    R.time.sleep = fake_sleep
     loggers = {'disabled': None}
     for name, lvl in (('warn_level', logging.WARNING), ('error_level', logging.ERROR)):
         lg = logging.Logger('pedverif_' + name, level=lvl)       # not registered: no propagation to the root logger
         lg.addHandler(logging.NullHandler())
         loggers[name] = lg
-    out = []
-    # one decorated function per (attempts, exceptions spec), reused for every case of that configuration: the contract is
+    # one decorated function per (attempts, exceptions spec, …), reused for every case of that configuration: the contract is
     # per call, so a budget / cache shared between calls of the same decorated function must not show
-    cur = {}
     sentinel = ('R', 999999)
 
     def f(*a, **k):
-        seq, objs, arglog = cur['seq'], cur['objs'], cur['arglog']
+        ctx = stack[-1]
+        seq, objs, arglog = ctx['seq'], ctx['objs'], ctx['arglog']
         i = len(arglog)
-        events.append(['call', i]); arglog.append((a, k))
+        ctx['events'].append(['call', i]); arglog.append((a, k))
+        if ctx['nest_at'] == i and ctx['inner_case'] is not None:
+            inner, ctx['inner_case'] = ctx['inner_case'], None
+            ctx['inner_result'] = run_one(inner)           # the overlapping call; whatever it does stays its own business
         if i >= len(seq): return sentinel
         if seq[i] in ('ret', 'retexc', 'retforeignexc', 'retnone'): return objs[i]
         raise objs[i]
@@ -129,27 +178,29 @@ def run_impl(cases):
         return needs_session('session', *a, **k)
     callables = {'function': f, 'lambda': lambda *a, **k: f(*a, **k), 'method': Holder().m, 'partial': functools.partial(f),
                  'instance': CallableObj(), 'injecting': injecting}
-    try:
-        for case in cases:
-            x = case['x']; seq = x['kinds']; attempts = case['c']['attempts']
-            objs = []
-            for i, k in enumerate(seq):
-                objs.append({'ret': lambda i=i: ('R', i), 'listed': lambda: Base1(), 'listedsub': lambda: Sub1(),
-                             'foreign': lambda: Other(), 'base': lambda: BE(), 'retexc': lambda: Base1(), 'retforeignexc': lambda: Other(),
-                             'typeerr': lambda: TypeError('raised by the retried function'), 'retnone': lambda: None,
-                             'group_listed': lambda: ExceptionGroup('g', [Base1(), Sub1()]),
-                             'group_mixed': lambda: ExceptionGroup('g', [Base1(), Other()]),
-                             'basegroup': lambda: BaseExceptionGroup('g', [BE()])}[k]())
-            del events[:]; del durations[:]
-            fn = callables[x.get('fkind', 'function')]
-            log = x.get('log', 'disabled'); st = x.get('st', 0)
-            logging.disable(logging.CRITICAL if log == 'disabled' else logging.NOTSET)
-            extra = {}
-            if log != 'disabled': extra['logger'] = loggers[log]
-            if st: extra['sleep_time'] = timedelta(seconds=st)
-            arglog = []
-            cur.update(seq=seq, objs=objs, arglog=arglog)
-            A = (object(), object()); K = {'x': object()}
+
+    def run_one(case, inner_case=None):
+        x = case['x']; seq = x['kinds']; attempts = case['c']['attempts']
+        objs = []
+        for i, k in enumerate(seq):
+            objs.append({'ret': lambda i=i: ('R', i), 'listed': lambda: Base1(), 'listedsub': lambda: Sub1(),
+                         'foreign': lambda: Other(), 'base': lambda: BE(), 'retexc': lambda: Base1(), 'retforeignexc': lambda: Other(),
+                         'typeerr': lambda: TypeError('raised by the retried function'), 'retnone': lambda: None,
+                         'group_listed': lambda: ExceptionGroup('g', [Base1(), Sub1()]),
+                         'group_mixed': lambda: ExceptionGroup('g', [Base1(), Other()]),
+                         'basegroup': lambda: BaseExceptionGroup('g', [BE()]),
+                         'listed_nostr': lambda: NoStr(), 'listedsub_norepr': lambda: NoRepr(), 'foreign_nostr': lambda: OtherNoStr()}[k]())
+        fn = callables[x.get('fkind', 'function')]
+        log = x.get('log', 'disabled'); st = x.get('st', 0)
+        logging.disable(logging.CRITICAL if log == 'disabled' else logging.NOTSET)
+        extra = {}
+        if log != 'disabled': extra['logger'] = loggers[log]
+        if st: extra['sleep_time'] = timedelta(seconds=st)
+        ctx = {'seq': seq, 'objs': objs, 'arglog': [], 'events': [], 'durations': [], 'nest_at': x.get('nest_at'),
+               'inner_case': inner_case, 'inner_result': None}
+        stack.append(ctx)
+        A = (object(), object()); K = {'x': object()}
+        try:
             try:
                 if x['form'] == 'func':
                     r = R.retry_func(fn, *A, attempts=attempts, exceptions=specs[x['spec']], **extra, **K)
@@ -161,14 +212,46 @@ def run_impl(cases):
                 if r is sentinel: res = ['ret', 999999]
                 else:
                     # which invocation's result object came back (None is identified by the position of the last invocation)
-                    idx = [i for i, o in enumerate(objs) if o is r and (r is not None or i == len(arglog) - 1)]
+                    idx = [i for i, o in enumerate(objs) if o is r and (r is not None or i == len(ctx['arglog']) - 1)]
                     res = ['ret', idx[0]] if idx else (['retNone'] if r is None else ['ret', -1])
             except BaseException as e:
                 idx = [i for i, o in enumerate(objs) if o is e]
                 res = ['exc', idx[0]] if idx else ['exc', -1, type(e).__name__]
-            args_ok = all(len(a) == 2 and a[0] is A[0] and a[1] is A[1] and list(k) == ['x'] and k['x'] is K['x'] for a, k in arglog)
-            out.append({'trace': [list(e) for e in events], 'res': res, 'args_unchanged': args_ok,
-                        'durations_ok': all(d == st for d in durations)})
+        finally:
+            stack.pop()
+            logging.disable(logging.CRITICAL if not stack else logging.NOTSET if stack[-1] and log != 'disabled' else logging.CRITICAL)
+        args_ok = all(len(a) == 2 and a[0] is A[0] and a[1] is A[1] and list(k) == ['x'] and k['x'] is K['x'] for a, k in ctx['arglog'])
+        mine = {'trace': [list(e) for e in ctx['events']], 'res': res, 'args_unchanged': args_ok,
+                'durations_ok': all(d == st for d in ctx['durations'])}
+        return mine, ctx['inner_result']
+
+    out = []
+    try:
+        i = 0
+        while i < len(cases):
+            case = cases[i]
+            x = case['x']
+            if x.get('nest_at') is not None:
+                paired = i + 1 < len(cases) and cases[i + 1]['x'].get('inner')
+                inner_case = cases[i + 1] if paired else x.get('partner')
+                (mine, inner) = run_one(case, inner_case)
+                out.append(mine)
+                if paired:
+                    if inner is None:          # the outer call never reached the invocation that makes the inner call: run it on its own
+                        inner = run_one(cases[i + 1])
+                    out.append(inner[0])
+                    i += 2
+                else:
+                    i += 1
+            elif x.get('inner') and x.get('partner'):      # the inner half on its own (replay): executed inside its outer call
+                (_, inner) = run_one(x['partner'], case)
+                if inner is None:
+                    inner = run_one(case)
+                out.append(inner[0])
+                i += 1
+            else:
+                out.append(run_one(case)[0])
+                i += 1
     finally:
         R.time.sleep = orig_sleep
         logging.disable(logging.CRITICAL)
